@@ -186,3 +186,126 @@ Definition well_scoped (m : module) : bool :=
       forallb (fun ife => is_std (snd ife) || ws_function P main (fst ife) (snd ife))
               (combine (seq 0 (length P)) P)
   end.
+
+(* ------------------------------------------------------------------------------------------ *)
+(* The class of the known finding: a captured local that is not the top stack slot at the end   *)
+(* of a loop-body scope stays open  (CloseUpvalue closes only from the top slot and does not  *)
+(* pop).  [leaky m]: some Repeat / ForEach body declares a variable that a closure inside it   *)
+(* mentions, and either two such variables, or something in the body leaves a value on the     *)
+(* stack (a statement-level call, a non-empty Array, an inner loop with a captured variable).  *)
+(* A static over-approximation, used only to LABEL a disagreement (code 11), never to accept.  *)
+(* ------------------------------------------------------------------------------------------ *)
+Section Leaky.
+  Fixpoint cards_any (f : card -> bool) (l : list card) : bool :=
+    match l with [] => false | x :: r => f x || cards_any f r end.
+
+  (* variable names mentioned inside closure bodies within c ([inside]: already in one) *)
+  Fixpoint mentions (inside : bool) (c : card) {struct c} : list str :=
+    let many := fix go (l : list card) : list str :=
+                  match l with [] => [] | x :: r => mentions inside x ++ go r end in
+    match c with
+    | CReadVar name => if inside then [var_base name] else []
+    | CSetVar name v => (if inside then [var_base name] else []) ++ mentions inside v
+    | CSetGlobalVar _ v => mentions inside v
+    | CBin _ a b => mentions inside a ++ mentions inside b
+    | CUn _ a => mentions inside a
+    | CTri _ a b d => mentions inside a ++ mentions inside b ++ mentions inside d
+    | CCallNative _ args | CCall _ args | CComposite _ args | CArray args => many args
+    | CDynamicCall f args => mentions inside f ++ many args
+    | CRepeat _ n b => mentions inside n ++ mentions inside b
+    | CForEach _ _ _ it b => mentions inside it ++ mentions inside b
+    | CClosure _ cs => (fix go (l : list card) : list str :=
+                          match l with [] => [] | x :: r => mentions true x ++ go r end) cs
+    | _ => []
+    end.
+
+  (* names newly declared directly in the scope that c stands in (not inside loops / closures) *)
+  Fixpoint new_decls (vis : list str) (c : card) {struct c} : list str :=
+    match c with
+    | CSetVar name _ =>
+        match rsplit_once_c c_dot name with
+        | Some _ => []
+        | None => if mem name vis then [] else [name]
+        end
+    | CComposite _ cs =>
+        (fix go (l : list card) (vis : list str) : list str :=
+           match l with
+           | [] => []
+           | x :: r => let d := new_decls vis x in d ++ go r (d ++ vis)
+           end) cs vis
+    | _ => []
+    end.
+
+  Definition captured_of (vis lv : list str) (b : card) : list str :=
+    let d := lv ++ new_decls (lv ++ vis) b in
+    let ms := mentions false b in
+    filter (fun x => mem x ms) d.
+
+  (* does the statement c leave something on the stack of the scope it stands in *)
+  Fixpoint junk (vis : list str) (c : card) {struct c} : bool :=
+    let arr v := match v with CArray (_ :: _) => true | _ => false end in
+    match c with
+    | CComposite _ cs => (fix go (l : list card) : bool :=
+                            match l with [] => false | x :: r => junk vis x || go r end) cs
+    | CBin BIfTrue _ b | CBin BIfFalse _ b | CBin BWhile _ b => junk vis b
+    | CTri TIfElse _ a b => junk vis a || junk vis b
+    | CRepeat i _ b => junk vis b || negb (match captured_of vis (opt_names [i]) b with [] => true | _ => false end)
+    | CForEach i k v _ b =>
+        junk vis b || negb (match captured_of vis (opt_names [v; k; i]) b with [] => true | _ => false end)
+    | CSetVar _ v | CSetGlobalVar _ v => arr v
+    | CUn UReturn v => arr v
+    | _ => match yields c with Some 0 => false | _ => true end
+    end.
+
+  Definition leaky_scope (vis lv : list str) (b : card) : bool :=
+    match captured_of vis lv b with
+    | [] => false
+    | [_] => junk vis b
+    | _ => true
+    end.
+
+  (* some loop scope inside c (also inside the closures of c) is leaky *)
+  Fixpoint leaky_card (vis : list str) (c : card) {struct c} : bool :=
+    let many := fix go (l : list card) : bool :=
+                  match l with [] => false | x :: r => leaky_card vis x || go r end in
+    match c with
+    | CSetVar _ v | CSetGlobalVar _ v => leaky_card vis v
+    | CBin _ a b => leaky_card vis a || leaky_card vis b
+    | CUn _ a => leaky_card vis a
+    | CTri _ a b d => leaky_card vis a || leaky_card vis b || leaky_card vis d
+    | CCallNative _ args | CCall _ args | CArray args => many args
+    | CComposite _ cs =>
+        (fix go (l : list card) (vis : list str) : bool :=
+           match l with
+           | [] => false
+           | x :: r => leaky_card vis x || go r (new_decls vis x ++ vis)
+           end) cs vis
+    | CDynamicCall f args => leaky_card vis f || many args
+    | CRepeat i n b =>
+        let lv := opt_names [i] in
+        leaky_card vis n || leaky_scope vis lv b || leaky_card (lv ++ new_decls (lv ++ vis) b ++ vis) b
+    | CForEach i k v it b =>
+        let lv := opt_names [v; k; i] in
+        leaky_card vis it || leaky_scope vis lv b || leaky_card (lv ++ new_decls (lv ++ vis) b ++ vis) b
+    | CClosure params cs =>
+        (fix go (l : list card) (vis : list str) : bool :=
+           match l with
+           | [] => false
+           | x :: r => leaky_card vis x || go r (new_decls vis x ++ vis)
+           end) cs (params ++ vis)
+    | _ => false
+    end.
+
+  Fixpoint leaky_seq (vis : list str) (cs : list card) : bool :=
+    match cs with
+    | [] => false
+    | c :: r => leaky_card vis c || leaky_seq (new_decls vis c ++ vis) r
+    end.
+End Leaky.
+
+Definition leaky (m : module) : bool :=
+  match program_of m with
+  | None => false
+  | Some (P, _) =>
+      existsb (fun fe => negb (is_std fe) && leaky_seq (f_args (fe_fn fe)) (f_cards (fe_fn fe))) P
+  end.
